@@ -1,6 +1,7 @@
 import BfeVerif.Common.Proto
 import BfeVerif.C08.Model
 import BfeVerif.C07.Render
+import BfeVerif.C08.Transport
 /-!
   C08 driver.  Same op / result line as C07 (harness/cmd/c07/sim).
 
@@ -104,6 +105,7 @@ def tagsOf (sc : Scenario) (steps : List IStep) (nd : Bool) : List String :=
   (if sc.cfg.failNum > 0 then ["health"] else [])
 
 def run (op impl : String) : Ans :=
+  if op.startsWith "tr/" then Tr.run op impl else
   match parseOp op with
   | none => { model := "bad-op", verdict := "skip" }
   | some sc =>
